@@ -742,7 +742,7 @@ class CFG:
                 return self.def_value(ds[0], expr.id)
         return expr
 
-    def expand_locals(self, node, expr, depth=4, stable=False, only=None):
+    def expand_locals(self, node, expr, depth=4, stable=False, only=None, pure_only=True, keep=()):
         """copy of ``expr`` in which every local name with a single reaching plain assignment at ``node`` is replaced by the assigned
         expression (recursively): the expression as the code wrote it before explaining variables were introduced.  The value is the
         one at the definition; callers that care about state changed in between must check that themselves."""
@@ -752,10 +752,10 @@ class CFG:
         def at(n_, e, d):
             class T(ast.NodeTransformer):
                 def visit_Name(self, x):
-                    if isinstance(x.ctx, ast.Load) and d > 0 and (only is None or x.id in only):
+                    if isinstance(x.ctx, ast.Load) and d > 0 and (only is None or x.id in only) and x.id not in keep:
                         ds = g.reaching_defs(n_, x.id)
                         dv = g.def_value(ds[0], x.id) if len(ds) == 1 else None
-                        if dv is not None and ds[0] is not n_ and _pure_value(dv):
+                        if dv is not None and ds[0] is not n_ and (_pure_value(dv) or not pure_only) and not any(isinstance(y, ast.Name) and y.id == x.id for y in ast.walk(dv)):
                             if stable and not all({q.id for q in g.reaching_defs(ds[0], nm)} == {q.id for q in g.reaching_defs(node, nm)}
                                                   for nm in {y.id for y in ast.walk(dv) if isinstance(y, ast.Name)}):
                                 return x
